@@ -4,6 +4,7 @@ Every flavour has its own cargo target dir under /verif/.cache, so cargo's finge
 what is stale: a check invoked after sources changed recompiles only the blockwatch crate.
 """
 import fcntl
+import hashlib
 import os
 import subprocess
 import sys
@@ -68,6 +69,27 @@ def binary_path(flavour):
     return os.path.join(target_dir(flavour), FLAVOURS[flavour][3])
 
 
+def source_hash(repo):
+    """Content hash of everything cargo compiles from the repository (not of mtimes)."""
+    hsh = hashlib.sha256()
+    for top in ("Cargo.toml", "Cargo.lock", "build.rs", "src", ".cargo"):
+        path = os.path.join(repo, top)
+        if os.path.isfile(path):
+            hsh.update(top.encode() + b"\0" + open(path, "rb").read() + b"\0")
+        elif os.path.isdir(path):
+            for root, dirs, files in os.walk(path):
+                dirs.sort()
+                for fn in sorted(files):
+                    fp = os.path.join(root, fn)
+                    hsh.update(os.path.relpath(fp, repo).encode() + b"\0")
+                    try:
+                        hsh.update(open(fp, "rb").read())
+                    except OSError:
+                        pass
+                    hsh.update(b"\0")
+    return hsh.hexdigest()
+
+
 def build(flavour, quiet=True, repo=None):
     """Build (or refresh) one flavour from the repo working tree; returns the binary path.
 
@@ -87,9 +109,25 @@ def build(flavour, quiet=True, repo=None):
     env.update(extra)
     lock_path = os.path.join(CACHE, "build-%s.lock" % _TARGET_DIR[flavour])
     t0 = time.time()
+    stamp = os.path.join(CACHE, "srchash-%s" % flavour)
     with open(lock_path, "w") as lock:
         fcntl.flock(lock, fcntl.LOCK_EX)
+        # cargo decides freshness of a path package by mtimes; a tree whose *content* changed while mtimes
+        # went backwards (restored snapshot, rsync -a, git stash) would be taken for fresh. The crate is
+        # therefore cleaned whenever the content hash differs from the one the cached binary was built from.
+        want = source_hash(repo)
+        have = open(stamp).read().strip() if os.path.exists(stamp) else None
+        if have != want and os.path.isdir(tdir):
+            clean = ["cargo"] + ([toolchain] if toolchain else []) + [
+                "clean", "--offline", "-p", "blockwatch", "--manifest-path", os.path.join(repo, "Cargo.toml"),
+                "--target-dir", tdir] + [a for a in args if a in ("--release",)]
+            if "--target" in args:
+                clean += ["--target", TARGET_TRIPLE]
+            subprocess.run(clean, env=env, stdout=subprocess.PIPE, stderr=subprocess.STDOUT, text=True)
         proc = subprocess.run(cmd, env=env, stdout=subprocess.PIPE, stderr=subprocess.STDOUT, text=True)
+        if proc.returncode == 0:
+            with open(stamp, "w") as f:
+                f.write(want)
     if proc.returncode != 0:
         raise BuildError("cargo build (%s) failed:\n%s" % (flavour, proc.stdout[-4000:]))
     path = binary_path(flavour)
